@@ -164,11 +164,11 @@ def auto_discharge(f, s):
                 x_, y_ = list(a_)[0], list(b_)[0]
                 if ((x_ < y_) if cond[1] == "Lt" else (x_ <= y_)) == t["expected"]:
                     return True, "constant condition %s" % show(cond)
-        # shift amount drawn from a literal array, all below the bound
+        # shift amount drawn from a literal array / constant stepped range, all below the bound
         if cond[0] == "bin" and cond[1] == "Lt" and cond[3][0] == "const" and cond[3][2] is not None:
-            arrs = [x for x in walk(cond[2]) if x[0] == "agg" and x[1] == "array"]
-            if arrs and all(e[0] == "const" and e[2] is not None and 0 <= e[2] < cond[3][2] for a in arrs for e in a[5]):
-                return True, "shift amounts %s < %d" % ([e[2] for e in arrs[0][5]], cond[3][2])
+            sq = const_sequence(cond[2])
+            if sq and all(0 <= e < cond[3][2] for e in sq):
+                return True, "shift amounts %s < %d" % (sq, cond[3][2])
         if cond[0] == "bin" and cond[1] == "Eq" and cond[2][0] == "const" and cond[3][0] == "const" and t["expected"] is False \
                 and cond[2][2] != cond[3][2]:
             return True, "constant divisor"
@@ -529,19 +529,49 @@ def rule_tables(R):
     R.ob("tables/exact-consumption", okr, "from_buffer inspects what the decoder left unconsumed", where=fb.span)
 
 
+def const_sequence(t):
+    """the finite list of values a `for` loop variable takes when the iterated expression is a literal array or a constant
+    stepped range (`[0, 7, 14, 21]`, `(0..=21).step_by(7)`, `(0..28).step_by(7)`), else None"""
+    for x in walk(t):
+        if x[0] == "agg" and x[1] == "array" and x[5] and all(e[0] == "const" and e[2] is not None for e in x[5]):
+            return [e[2] for e in x[5]]
+    for x in walk(t):
+        if is_call(x, "core::iter::Iterator::step_by") and len(x[3]) == 2 and peel(x[3][1])[0] == "const" and peel(x[3][1])[2]:
+            step = peel(x[3][1])[2]
+            src = peel(x[3][0])
+            lo = hi = None
+            if is_call(src, "RangeInclusive::<Idx>::new") and len(src[3]) == 2:
+                a, b = peel(src[3][0]), peel(src[3][1])
+                if a[0] == "const" and b[0] == "const" and a[2] is not None and b[2] is not None:
+                    lo, hi = a[2], b[2] + 1
+            elif src[0] == "agg" and (src[2] or "").endswith("ops::Range") and len(src[5]) == 2:
+                a, b = peel(src[5][0]), peel(src[5][1])
+                if a[0] == "const" and b[0] == "const" and a[2] is not None and b[2] is not None:
+                    lo, hi = a[2], b[2]
+            if lo is not None and 0 < (hi - lo) // step < 64:
+                return list(range(lo, hi, step))
+    return None
+
+
 def rule_varint(R):
     f = R.f
     rv = roles.free_fn(f, "read_mqtt_u32_varint")
     R.touch(rv)
-    arrs = [rv.rvalue_term(s["rv"]) for bb, j, s in rv.assigns() if "agg" in s["rv"] and s["rv"]["agg"]["kind"] == "array"]
-    shifts = [e[2] for e in arrs[0][5]] if len(arrs) == 1 else None
+    shifts = None
+    loop_next = None
+    for c in rv.calls.values():
+        if c.bb in rv.reachable and c.is_("core::iter::Iterator::next"):
+            sq = const_sequence(rv.operand_term(c.args[0]))
+            if sq is not None:
+                shifts, loop_next = sq, c
     R.ob("varint/four-bytes", shifts == [0, 7, 14, 21],
          "a variable byte integer is read from at most four bytes with shifts 0, 7, 14, 21 (found %s)" % shifts, where=rv.span)
     # after the loop: invalid
     loop_sw = None
     for bb in rv.switches:
         si = rv.switch_info(bb)
-        if si["enum"] == "core::option::Option" and any(x[0] == "agg" and x[1] == "array" for x in walk(si["subject"])):
+        if si["enum"] == "core::option::Option" and loop_next is not None and \
+                any(a[0] == "call" and a[1] == loop_next.bb for a in phi_alts(peel(si["subject"]))):
             loop_sw = si
     ok_after = False
     if loop_sw is not None and loop_sw["edges"].get("None") is not None:
